@@ -12,6 +12,6 @@ MCItemVals == {[t |-> "s", v |-> <<>>], [t |-> "s", v |-> <<A, 98>>], [t |-> "s"
 (* histories: a formatter rendered, given more arguments, rendered again; messages raised one after the other *)
 PHs == <<LB, RB>>
 HFmts == {<<>>, PHs, <<A>> \o PHs, PHs \o PHs, <<LB>>, PHs \o <<RB>>}
-HArgVals == {<<120>>, PHs}
-HItemVals == {[t |-> "s", v |-> <<A, 98>>], [t |-> "i", v |-> 255], [t |-> "i", v |-> 7], [t |-> "h", v |-> 255], [t |-> "h", v |-> 9]}
+HArgVals == {<<120>>, PHs, <<60, 120, 62>>}      \* "<x>": supplied by the driver as an object whose operator<< uses nitro::format itself
+HItemVals == {[t |-> "s", v |-> <<A, 98>>], [t |-> "s", v |-> <<60, 120, 62>>], [t |-> "i", v |-> 255], [t |-> "i", v |-> 7], [t |-> "h", v |-> 255], [t |-> "h", v |-> 9]}
 =============================================================================
